@@ -190,10 +190,11 @@ CLAIMS = {
          "(C12_lookup_value_invariant), index value = base / value, 0 before the first node, error without base "
          "(C12_index_value); the first-order sensitivities of the straight-line, log-linear and zero-rate rules (both "
          "branches of the latter) are the C01 jets of the rules' formulas, i.e. the true derivatives (C12_grad_linear, "
-         "C12_grad_log_linear, C12_grad_zero_rate), and vanish for nodes outside the interval (C12_local). PARTIAL: "
-         "Hessians of looked-up values are the C02 rules composed (correspondence).",
+         "C12_grad_log_linear, C12_grad_zero_rate), and vanish for nodes outside the interval (C12_local); at second order "
+         "value, gradient and Hessian of each smooth rule on Dual2 nodes are, along every direction of two variable names, "
+         "the C02 2-jet of the rule's formula (C12_hess_linear, C12_hess_log_linear, C12_hess_zero_rate).",
     design_ref="DESIGN.md §3 C12",
-    note=_corr + "Hessian theorems not stated per rule (C02 rules composed; correspondence).",
+    note=_corr + "theorems over ℝ; f64 rounding modelled.",
     technique="Lean 4 proof over state-machine model of set_ad_order + differential correspondence"),
  "C09": dict(
     text="Lean 4 theorems over the model of the triangulation: over any field, whenever it returns a result every one of "
